@@ -43,6 +43,8 @@ def build(L, d, kind):
     # --- the roster
     s = mk_sds(L, sd, b"big2d", DFNT["int32"], [20, 30], 1)
     L.SDsetattr(s, b"units", DFNT["char8"], 3, b"m/s")
+    L.SDsetattr(s, b"cal", DFNT["float32"], 4, struct.pack("=4f", 1.0, 2.0, 4.0, 8.0))
+    L.SDsetattr(s, b"steps", DFNT["int16"], 5, struct.pack("=5h", 1, 2, 3, 4, 5))
     L.SDsetdimname(L.SDgetdimid(s, 0), b"rows")
     L.SDsetdimscale(L.SDgetdimid(s, 0), 20, DFNT["int16"], vals(DFNT["int16"], 20, 5))
     L.SDsetdimstrs(L.SDgetdimid(s, 1), b"columns", b"km", None)
@@ -98,6 +100,9 @@ def build(L, d, kind):
     if kind == "big":
         L.SDendaccess(mk_sds(L, sd, b"huge", DFNT["int32"], [3, 300001], 9))
     L.SDsetattr(sd, b"title", DFNT["char8"], 11, b"repack test")
+    # numeric attributes of several elements wider than one byte (file-level and on a dataset)
+    L.SDsetattr(sd, b"levels", DFNT["int32"], 6, struct.pack("=6i", 1, 10, 100, 1000, 10000, 100000))
+    L.SDsetattr(sd, b"origin", DFNT["float64"], 3, struct.pack("=3d", 1.0, 2.0, 4.0))
     L.SDend(sd)
     fid = L.Hopen(p, DFACC_RDWR, 0)
     gr = L.GRstart(fid)
